@@ -76,6 +76,7 @@ def step (st : St) (line : String) : St × String :=
     let par : Family → Nat := fun fam => match fam with | .s128 => n h | .s64 => n i | .mantis => n j
     ({ st with bd := { bd with sizes := { ctr := ctr, par := par } } }, "ok")
   | ["probes", a, b] => ({ st with probes := ⟨b2n a, b2n b⟩ }, "ok")
+  | ["align", _] | ["guard", _] | ["overlap", _] => (st, "ok")
   | ["junk", x] => ({ st with junk := UInt8.ofNat x.toNat! }, "ok")
   | ["failat", k] => ({ st with world := { st.world with failAt := if k = "none" then none else some (st.world.allocCount + k.toNat!) } }, "ok")
   | ["heap"] =>
